@@ -236,8 +236,8 @@ def penalise_savings(
     if np.all(betas < 1e-8):
         penalised_savings = savings.sum(axis=1) - alpha
     if np.all(betas == betas[0]):
-        penalised_saving_matrix = np.maximum(savings - betas[0], 0.0) - alpha
-        penalised_savings = penalised_saving_matrix.sum(axis=1)
+        penalised_saving_matrix = np.maximum(savings - betas[0], 0.0)
+        penalised_savings = penalised_saving_matrix.sum(axis=1) - alpha
     else:
         n_savings = savings.shape[0]
         penalised_savings = np.zeros(n_savings)
